@@ -108,6 +108,27 @@ def _run(ev, work, thorough):
             rejected += 1
             ev.drift.append({"trace": {"hid": tr["hid"], "step": tr["step"], "kind": tr["kind"]},
                              "matched": v.get("matched"), "next_event": v.get("next_event"), "real_ok": tr["real_ok"]})
+    # ---- binding self-test: a tampered copy of an accepted trace must NOT be a behaviour of the specification ----
+    acc = [traces[i] for i in range(len(traces)) if verdicts[i]["accepted"] and len(traces[i]["events"]) >= 5][:40]
+    tampered = []
+    for k, tr in enumerate(acc):
+        evs = [dict(e) for e in tr["events"]]
+        body = list(range(1, len(evs)))                      # event 0 is the begin event (operation and frame)
+        if k % 2 == 0:
+            del evs[body[len(body) // 2]]                     # one recorded filesystem call is missing
+        else:
+            i, j = body[0], body[-1]
+            evs[i], evs[j] = evs[j], evs[i]                   # first and last call swapped
+        if evs != tr["events"]:
+            tampered.append(dict(tr, events=evs))
+    if tampered:
+        tv, tres2 = D.validate_traces(tampered, work)
+        nacc = sum(1 for i in range(len(tampered)) if tv[i]["accepted"])
+        ev.add_tlc("DatasetTrace binding self-test: %d tampered traces (call dropped / first and last call swapped), %d accepted"
+                   % (len(tampered), nacc), tres2)
+        ev.extra["tampered_traces"] = {"submitted": len(tampered), "accepted": nacc}
+        if nacc > len(tampered) // 4:
+            raise T.TLCError("the trace specification accepts %d of %d tampered traces: it does not bind the code" % (nacc, len(tampered)))
     if rejected:
         print("DRIFT: %d of %d recorded traces are not behaviours of the mechanism model (contract judged on the real directory)"
               % (rejected, len(traces)))
